@@ -204,8 +204,20 @@ def h_edit_frames(eng):
     before_b = (list(b.fields["symbols"].keys), len(b.fields["equations"].items), list(b.fields["classes"].keys))
     before_p = list(p.fields["classes"].keys)
     s, e, c = A.new("Symbol", name="s2"), A.new("Equation", left=A.ref("x"), right=A.prim(3)), A.new("Class", name="K", type="model")
-    op = ["add_symbol", "remove_symbol", "add_equation", "remove_equation", "add_class", "remove_class"][eng.choice(6)]
+    op = ["add_symbol", "remove_symbol", "add_equation", "remove_equation", "add_class", "remove_class", "add_class:copy-of-a-sibling"][eng.choice(7)]
     eng.input("operation", op)
+    if op == "add_class:copy-of-a-sibling":
+        # a class-level copy (find_class(copy=True) / copy_including_children) SHARES the parent of the class it was copied from without being
+        # registered there; carrying such a copy into another class must not touch the class it was copied from
+        cp = eng.call(VBound(eng.find_function(AST, "Class.copy_including_children"), b), [], {})
+        eng.call(VBound(eng.find_function(AST, "Class.add_class"), a), [cp], {})
+        eng.cover("edit.done")
+        eng.prove("edit.other_classes_untouched", z3.BoolVal((list(b.fields["symbols"].keys), len(b.fields["equations"].items), list(b.fields["classes"].keys)) == before_b and
+                                                              list(p.fields["classes"].keys) == before_p and p.fields["classes"].vals[before_p.index("B")] is b and
+                                                              b.fields["parent"] is p and a.fields["parent"] is p))
+        eng.prove("edit.receiver_changed_exactly_as_requested", z3.BoolVal(list(a.fields["classes"].keys) == ["B"] and a.fields["classes"].vals[0] is cp and cp is not b))
+        eng.prove("edit.added_class_parent_is_receiver", z3.BoolVal(cp.fields["parent"] is a))
+        return
     pre = {"add_symbol": [], "remove_symbol": [("add_symbol", s)], "add_equation": [], "remove_equation": [("add_equation", e)], "add_class": [], "remove_class": [("add_class", c)]}[op]
     for m, x in pre:
         eng.call(VBound(eng.find_function(AST, "Class." + m), a), [x], {})
